@@ -4,6 +4,7 @@ import RemocModel.Props.C01
 import RemocModel.Base.CloseProv
 import RemocModel.Base.CloseList
 import RemocModel.Base.CloseQuiet
+import RemocModel.Base.CloseAll
 set_option linter.unusedSimpArgs false
 
 /-!
@@ -402,5 +403,85 @@ example : quiescentB cfg3 obsClose = true ∧ obsClose.handles = 2 ∧ obsClose.
 example : quiescentB cfg3 obsDrop = true ∧ obsDrop.rAlive = false ∧ obsDrop.closeCalled = false ∧
     obsDrop.reason = some .dropped := by decide
 example : quiescentB cfg3 obsConn = true ∧ obsConn.connDown = true ∧ obsConn.reason = some .failed := by decide
+
+/-! ## nothing transmitted is lost; end-of-stream comes last -/
+
+/-- **Close keeps what was transmitted.**  What the receiver obtained from the link is always, in
+order, a prefix of the values whose transmission completed; and when `recv` reports a clean
+end-of-stream it has obtained every one of them. -/
+theorem mpsc_close_keeps_transmitted (c : Cfg) (s : State) (h : Reachable c s) :
+    (∃ rest, remOf s.delivered ++ rest = s.xmit) ∧
+    (s.eos = some true → remOf s.delivered = s.xmit) := by
+  have i := allinv2_reachable c s h
+  constructor
+  · exact ⟨remOf s.lost ++ remOf s.rq ++ remOf s.rHold.toList ++ wireVals s.wire, by
+      rw [i.d.d1, i.d.d2]; simp [List.append_assoc]⟩
+  · intro he
+    have hfin := i.e.e9 he
+    have hw := i.d.d4 hfin
+    have hh := i.a.k.hold (by simp [hfin])
+    have hrq := (i.e.e8 (by simp [he])).1
+    have hl := i.e.e11 he
+    rw [i.d.d1, i.d.d2, hw, hh, hrq, hl]
+    simp [remOf, wireVals]
+
+/-- in the words of the property: every value whose transmission had completed before `send_impl`
+learnt of the close (or drop, or failure) is delivered before a clean end-of-stream — for every
+continuation of the run -/
+theorem mpsc_close_keeps_transmitted_before (c : Cfg) (s : State) (h : Reachable c s) (hend : s.impl.isSome)
+    (ls : List Label) (heos : (run c s ls).eos = some true) : remOf (run c s ls).delivered = s.xmit := by
+  rw [← (mpsc_first_cause_wins c s h hend ls).2.2.2]
+  exact (mpsc_close_keeps_transmitted c _ (reachable_run c s ls h)).2 heos
+
+/-- **End-of-stream only after all senders.**  When `recv` reports the end of the stream, the queue
+is empty and every reference to its sending side is gone: `recv_impl` has returned, the other links
+are gone, every local sender is dropped or observes the close.  If the end is clean (`Ok(None)`),
+`send_impl` of the link has ended, every remote clone is dropped or observes a reason, everything
+transmitted and every local value accepted was delivered. -/
+theorem mpsc_eos_after_all_senders (c : Cfg) (s : State) (h : Reachable c s) (he : s.eos.isSome) :
+    s.rq = [] ∧ s.rimpl.isSome ∧ s.lholder = false ∧ s.otherRefs = 0 ∧
+    (s.lhandles = 0 ∨ s.lreason.isSome) ∧
+    (s.eos = some true →
+      s.impl.isSome ∧ (s.handles = 0 ∨ s.reason.isSome) ∧ remOf s.delivered = s.xmit ∧
+      locOf s.delivered = s.lAccepted) := by
+  have i := allinv2_reachable c s h
+  obtain ⟨h1, h2, h3, h4⟩ := i.e.e8 he
+  have hl : s.lreason = s.rW := by unfold State.lreason closedReasonOf; cases s.rW <;> rfl
+  refine ⟨h1, h2, h3, h4, ?_, fun ht => ?_⟩
+  · rw [hl]; rcases i.e.e12 h3 with h | h
+    · exact Or.inr h
+    · exact Or.inl h
+  · have hi := i.a.ci.rFin (i.e.e9 ht)
+    refine ⟨hi, ended_observed s i.a hi, (mpsc_close_keeps_transmitted c s h).2 ht, ?_⟩
+    rw [i.l.l13, h1, i.e.e11 ht]; simp [locOf]
+
+/-- local senders: the accepted values are the resolved ones followed by the ones still in the
+receiver's queue; delivered ones resolve `Ok`, the ones lost with a dropped receiver `Dropped`,
+never a dropped one before a delivered one -/
+theorem mpsc_local_queued_suffix (c : Cfg) (s : State) (h : Reachable c s) :
+    s.lAccepted = s.lhres.map (·.1) ++ locOf s.rq ∧ suffixOk (s.lhres.map (·.2)) = true ∧
+    (s.rAlive = false → s.lAccepted = s.lhres.map (·.1)) := by
+  have i := allinv2_reachable c s h
+  refine ⟨?_, ?_, fun ha => ?_⟩
+  · rw [i.l.l13, i.l.l14]; simp [Function.comp_def]
+  · rw [i.l.l14]
+    simp only [List.map_append, List.map_map]
+    exact suffixOk_nonDropped_append _ _ (by intro r hr; simp at hr; rw [← hr.2]; simp) (by intro r hr; simp at hr; exact hr.2.symm)
+  · rw [i.l.l13, i.l.l14, i.d.d6 ha]; simp [Function.comp_def, locOf]
+
+/-! non-vacuity: a local sender and two remote clones; two values are transmitted, a third is still
+queued when the CLOSE byte arrives; the receiver drains and gets a clean end-of-stream -/
+def cfg4 : Cfg := { cap := 3, rcap := 4 }
+def eosRun : State :=
+  run cfg4 (settle cfg4 (run cfg4 (init 2 1 0)
+    [.lsend ⟨10, 9, .no⟩, .send ⟨1, 0, .no⟩, .admit, .send ⟨2, 1, .no⟩, .admit, .implTake, .xmitDone, .implTake, .xmitDone,
+     .send ⟨3, 0, .no⟩, .admit, .close, .rSeeClosed, .implBack]) 40)
+    [.recv, .recv, .recv, .recv]
+
+example : eosRun.eos = some true ∧ eosRun.impl = some .close ∧ eosRun.handles = 2 ∧ eosRun.reason = some .closed ∧
+    eosRun.xmit.map (·.id) = [1, 2] ∧ (remOf eosRun.delivered).map (·.id) = [1, 2] ∧
+    eosRun.hres.map (fun p => (p.1.id, p.2)) = [(1, .ok), (2, .ok), (3, .dropped)] ∧
+    (locOf eosRun.delivered).map (·.id) = [10] ∧ eosRun.lhres.map (·.2) = [.ok] ∧
+    eosRun.lreason = some .closed := by decide
 
 end Remoc.Close
